@@ -51,7 +51,7 @@ INLINE_OPT = {"bold": "bold", "dark": "dark", "italic": "italic", "underlined": 
 DEFAULT_TAGS = {"info": ("green", None, []), "comment": ("cyan", None, []), "question": ("blue", None, []),
                 "error": ("red", None, ["bold"]), "b": (None, None, ["bold"]), "u": (None, None, ["underlined"]),
                 "c1": ("cyan", None, []), "c2": ("yellow", None, [])}
-WORDS = ["alpha", "beta gamma", "x", "Größe", "日本", "42", "a  b", "done.", "it's", "50%", "a=b;c", "&amp;"]
+WORDS = ["alpha", "beta gamma", "x", "  ", "Größe", "日本", "42", "a  b", "done.", "it's", "50%", "a=b;c", "&amp;"]
 
 # (target, method, stream, is_line, is_raw)
 METHODS = [
